@@ -18,7 +18,7 @@ broadcast use {group_time, group_byte_keys, vstd::std_specs::hash::group_hash_ax
 pub struct FerrousError { pub g: Ghost<int> }
 pub type Result<T> = std::result::Result<T, FerrousError>;
 pub enum Item { Str(Seq<u8>), Len(int) }
-pub enum Eff { RPush(int, Seq<u8>, Seq<Seq<u8>>), Expire(int, Seq<u8>, int), XAdd(int, Seq<u8>, StreamId), SAdd(int, Seq<u8>, Seq<Seq<u8>>), HSet(int, Seq<u8>, Seq<(Seq<u8>, Seq<u8>)>) }
+pub enum Eff { RPush(int, Seq<u8>, Seq<Seq<u8>>), Expire(int, Seq<u8>, int), XAdd(int, Seq<u8>, StreamId), SAdd(int, Seq<u8>, Seq<Seq<u8>>), HSet(int, Seq<u8>, Seq<(Seq<u8>, Seq<u8>)>), SetStr(int, Seq<u8>, Seq<u8>, Option<int>) }
 pub struct RdbReader { pub reads: Ghost<Seq<Item>> }
 pub struct StoreLog { pub effs: Ghost<Seq<Eff>> }
 impl StoreLog {
@@ -27,9 +27,13 @@ impl StoreLog {
         ensures final(self).effs@ == old(self).effs@.push(Eff::RPush(db as int, key@, elements@.map_values(|e: Vec<u8>| e@))),
     { unimplemented!() }
     #[verifier::external_body]
-    pub fn set_string(&mut self, db: usize, key: Vec<u8>, value: Vec<u8>) -> (r: Result<()>) { unimplemented!() }
+    pub fn set_string(&mut self, db: usize, key: Vec<u8>, value: Vec<u8>) -> (r: Result<()>)
+        ensures final(self).effs@ == old(self).effs@.push(Eff::SetStr(db as int, key@, value@, None)),
+    { unimplemented!() }
     #[verifier::external_body]
-    pub fn set_string_ex(&mut self, db: usize, key: Vec<u8>, value: Vec<u8>, ttl: Duration) -> (r: Result<()>) { unimplemented!() }
+    pub fn set_string_ex(&mut self, db: usize, key: Vec<u8>, value: Vec<u8>, ttl: Duration) -> (r: Result<()>)
+        ensures final(self).effs@ == old(self).effs@.push(Eff::SetStr(db as int, key@, value@, Some(dur_nanos(ttl)))),
+    { unimplemented!() }
     #[verifier::external_body]
     pub fn sadd(&mut self, db: usize, key: Vec<u8>, members: Vec<Vec<u8>>) -> (r: Result<usize>)
         ensures final(self).effs@ == old(self).effs@.push(Eff::SAdd(db as int, key@, members@.map_values(|e: Vec<u8>| e@))),
@@ -68,6 +72,8 @@ pub open spec fn list_items(key: Seq<u8>, elems: Seq<Seq<u8>>) -> Seq<Item> {
 /// loading them: one RPUSH per element, in file order
 pub open spec fn list_effs(db: int, key: Seq<u8>, elems: Seq<Seq<u8>>) -> Seq<Eff> { elems.map_values(|e: Seq<u8>| Eff::RPush(db, key, seq![e])) }
 
+pub open spec fn str_record(r0: Seq<Item>, key: Seq<u8>, value: Seq<u8>) -> Seq<Item> { r0.push(Item::Str(key)).push(Item::Str(value)) }
+pub open spec fn ttl_ns(ttl: Option<Duration>) -> Option<int> { match ttl { Some(t) => Some(dur_nanos(t)), None => None } }
 /// the items of the pairs of a HASH record: field, value, field, value, ...
 pub open spec fn hash_items(fv: Seq<(Seq<u8>, Seq<u8>)>) -> Seq<Item>
     decreases fv.len()
@@ -128,7 +134,7 @@ impl RdbReader {
 pub fn verif_sid_from_str(s: &str) -> Option<StreamId> { unimplemented!() }
 /// every effect from position `from` on concerns this key of this database
 pub open spec fn only_key(effs: Seq<Eff>, from: int, db: int, key: Seq<u8>) -> bool {
-    forall|i: int| from <= i < effs.len() ==> (match #[trigger] effs[i] { Eff::XAdd(d, k, _) => d == db && k == key, Eff::Expire(d, k, _) => d == db && k == key, Eff::RPush(d, k, _) => d == db && k == key, Eff::SAdd(d, k, _) => d == db && k == key, Eff::HSet(d, k, _) => d == db && k == key })
+    forall|i: int| from <= i < effs.len() ==> (match #[trigger] effs[i] { Eff::XAdd(d, k, _) => d == db && k == key, Eff::Expire(d, k, _) => d == db && k == key, Eff::RPush(d, k, _) => d == db && k == key, Eff::SAdd(d, k, _) => d == db && k == key, Eff::HSet(d, k, _) => d == db && k == key, Eff::SetStr(d, k, _, _) => d == db && k == key })
 }
 impl RdbReader {
 //@@ unit load_stream_arm arm src/storage/rdb.rs RdbReader::read_key_value_with_type "op if op == RdbOpcode::Stream as u8"
@@ -158,9 +164,16 @@ impl RdbReader {
 //@@   opt same-return-type
 //@@   tail Ok(())
 //@@   params drop "storage: &Arc<StorageEngine>" add "storage: &mut StoreLog"
-    // C10: safety and termination only (see load_stream_arm): whatever count the file names, the arm neither overflows, nor allocates by that
-    // count (elements are pushed one by one as they are read), nor loops for ever
+//@@   after "let value = self.read_string()?;"
+//@@|     let ghost kk = key@; let ghost vv = value@;
+//@@   after "if let Some(ttl) = ttl"
+//@@|     proof { assert(str_record(old(self).reads@, kk, vv) =~= self.reads@); }
     fn load_string_arm(&mut self, storage: &mut StoreLog, db: usize, ttl: Option<Duration>) -> (r: Result<()>)
+        ensures
+            // C09: a STRING record (key, value) is loaded with one SET of exactly those bytes, carrying the record's TTL if it has one —
+            // never without it (C02: a key saved with a deadline does not come back persistent)
+            r is Ok ==> exists|key: Seq<u8>, value: Seq<u8>| #[trigger] str_record(old(self).reads@, key, value) == final(self).reads@
+                && final(storage).effs@ == old(storage).effs@.push(Eff::SetStr(db as int, key, value, ttl_ns(ttl))),
 //@@ body
 //@@ end
 
@@ -298,6 +311,15 @@ impl RdbWriter {
             // overflow for EVERY ttl (saturating at the greatest deadline); a key without TTL gets no prefix
             ttl is None ==> r is Ok && final(self).out@ == old(self).out@,
             (ttl is Some && r is Ok) ==> exists|now_ms: u64| #[trigger] ttl_prefix(old(self).out@, now_ms, dur_nanos(ttl->Some_0) / 1_000_000) == final(self).out@,
+//@@ body
+//@@ end
+
+//@@ unit save_string_arm arm src/storage/rdb.rs RdbWriter::write_key_value "Value::String(bytes)"
+//@@   opt same-return-type
+//@@   tail Ok(())
+//@@   rewrite RT "RdbOpcode::String as u8" "0u8"
+    fn save_string_arm(&mut self, key: &[u8], bytes: &Vec<u8>) -> (r: std::result::Result<(), IoError>)
+        ensures r is Ok ==> final(self).out@ == old(self).out@.push(WItem::Byte(0u8)).push(WItem::Str(key@)).push(WItem::Str(bytes@)),
 //@@ body
 //@@ end
 
